@@ -33,7 +33,7 @@ ALLOWED_PRE = {
     'MatrixReverseSort': (['$1 < $0->col'], 'the sort key column must exist (documented parameter of the sort)'),
 }
 KIND_RULE = {'use-after-free': 'S.lifetime', 'double-free': 'S.lifetime', 'shallow-copy': 'S.deep-copy',
-             'unassigned-slot': 'S.slots'}
+             'unassigned-slot': 'S.slots', 'wrap': 'S.unsigned'}
 
 
 def run(chk, prog, dom=3):
@@ -46,7 +46,10 @@ def run(chk, prog, dom=3):
     R_s = chk.rule('S.slots', 'no pointer slot is dereferenced before an object was stored in it')
     R_w = chk.rule('S.written', 'every cell below the row/col/size counts at exit that lies in storage the operation allocated itself '
                    'has been stored to (newly exposed cells are defined, not indeterminate)')
+    R_u = chk.rule('S.unsigned', 'an unsigned local initialised with a difference never receives a negative (wrapped) value for any argument '
+                   'state satisfying the invariants (e.g. `size - 1` of an empty container)')
     ck = Checker(prog, dom=dom)
+    ck.check_wrap = True
     nfun = 0
     for unit, names in STRICT.items():
         for name in names:
@@ -71,8 +74,11 @@ def run(chk, prog, dom=3):
                     if key in seen:
                         continue
                     seen.add(key)
+                    detail = ob.detail
+                    if ob.kind == 'wrap':
+                        detail = 'the difference is negative for this state, so the unsigned variable wraps to a huge value (every later range test against it passes)'
                     chk.violation(Finding(rule, rel(f.file), name, ob.text, ob.where,
-                                          '%s: `%s`: %s' % (name, ob.text, ob.detail), witness=ob.witness))
+                                          '%s: `%s`: %s' % (name, ob.text, detail), witness=ob.witness))
             post = ck.post_invariant(eng)
             if not post:
                 chk.instance(R_p, '%s: invariants re-established at %d exit state(s)' % (name, len(eng.exit_states)))
